@@ -1,6 +1,7 @@
 """Layer C harness: scenarios (suite trees with scripted tests), the real runner through
 harness/scn_driver.c, the extracted Runner model, output parsers for every built-in reporter,
 and the comparisons the C01-C04, C08, C13, C14, C17, C18 checks are made of."""
+import sys as _sys; _sys.setrecursionlimit(20000)
 import os, re, shutil, subprocess, xml.etree.ElementTree as ET
 import vlib
 
